@@ -697,6 +697,9 @@ func (m *Model) payload(ev Event, s slot) *V {
 	if s.i.T.UsesX || (s.i.T.Run == WhenChanged && s.i.T.XVia == "env") {
 		want = s.i.X
 	}
+	if want == "" && s.i.T.UsesX {
+		want = m.P.EnvX // X was not passed: the task sees the process environment's X, if any
+	}
 	if ev.X != want {
 		return &V{Rule: "PAYLOAD.var", Tags: "run=" + s.i.T.Run.String(), Props: []string{"C02", "C06"},
 			What: fmt.Sprintf("%s printed X=%q, the call passed %q", ev.ID(), ev.X, want)}
